@@ -1090,4 +1090,153 @@ theorem C19_order_independent_perm_all (level : Nat) (ov ov' : List (Nat × Bool
   rw [lastVal_eq_some_iff ov hn, lastVal_eq_some_iff ov' hn']
   exact hp.mem_iff
 
+
+/-! ### Consistency of the result, for every command line -/
+
+theorem canonOv_mem_assigns (C : List Nat) (l : FlagMap) : canonOv C l ∈ assigns C := by
+  unfold canonOv
+  induction C with
+  | nil => simp [assigns]
+  | cons k ks ih =>
+    simp only [List.filterMap_cons, assigns, List.mem_flatMap]
+    refine ⟨_, ih, ?_⟩
+    by_cases hh : FlagMap.has l k = true
+    · simp only [hh, if_true]
+      cases FlagMap.get l k <;> simp
+    · simp [hh]
+
+/-- what the kernel decides for one cluster and one list of settings in the cluster's order, with the
+    whole table's budgets: when the cluster resolves, implied flags are on and exclusive flags are never
+    both on, and it does not resolve when two exclusive flags are both requested -/
+def clusterGoodB (C : List Nat) (l : FlagMap) : Bool :=
+  match resolveNF (restrictT Gen.flagTable C) genFuel genFuel [] 0 l with
+  | some res => impliedOn (restrictT Gen.flagTable C) res && neverBoth (restrictT Gen.flagTable C) res &&
+      !explicitBoth (restrictT Gen.flagTable C) l
+  | none => true
+
+theorem clusterGoodB_all : Gen.relatedClusters.all (fun C => (assigns C).all (clusterGoodB C)) = true := by
+  decide +kernel
+
+/-- the cluster resolution of any settings equals the one of the same settings in cluster order -/
+theorem gen_cluster_canon (C : List Nat) (hC : C ∈ Gen.relatedClusters) (o : FlagMap)
+    (hn : NodupKeys o) (hk : ∀ p ∈ o, p.1 ∈ C) :
+    resolveNF (restrictT Gen.flagTable C) genFuel genFuel [] 0 o
+      = resolveNF (restrictT Gen.flagTable C) genFuel genFuel [] 0 (canonOv C o) :=
+  C19_cluster_order_free C hC o (mem_seqs _ _ _ (Nat.le_refl _) hn hk)
+
+theorem gen_cluster_good (C : List Nat) (hC : C ∈ Gen.relatedClusters) (o : FlagMap) :
+    clusterGoodB C (canonOv C o) = true :=
+  List.all_eq_true.1 (List.all_eq_true.1 clusterGoodB_all C hC) _ (canonOv_mem_assigns C o)
+
+/-- a row with a non-empty list lies in a cluster, together with everything its lists name; and the
+    whole-table result agrees on that cluster with a cluster result of which the kernel-decided facts hold -/
+theorem gen_view (level : Nat) (ov : List (Nat × Bool)) (res : FlagMap)
+    (h : resolveNF Gen.flagTable genFuel genFuel Gen.optLevels level (normalize ov) = some res)
+    (g : FlagInfo) (hg : g ∈ Gen.flagTable) (hne : g.implies ≠ [] ∨ g.excl ≠ []) :
+    ∃ C ∈ Gen.relatedClusters, g.id ∈ C ∧ (∀ x ∈ g.implies, x ∈ C) ∧ (∀ x ∈ g.excl, x ∈ C) ∧
+      ∃ resC, impliedOn (restrictT Gen.flagTable C) resC = true ∧ neverBoth (restrictT Gen.flagTable C) resC = true ∧
+        explicitBoth (restrictT Gen.flagTable C) (canonOv C (restrictOv C (normalize ov))) = false ∧
+        AgreeOn C res resC := by
+  obtain ⟨h1, h2, h3⟩ := gen_structure
+  have hcov := cover_of_coverB _ _ h2
+  have hin : ∃ C ∈ Gen.relatedClusters, g.id ∈ C := by
+    apply Classical.byContradiction
+    intro hno
+    have hall : ∀ C ∈ Gen.relatedClusters, g.id ∉ C := fun C hC hin => hno ⟨C, hC, hin⟩
+    rcases hne with hne | hne
+    · cases hgi : g.implies with
+      | nil => exact hne hgi
+      | cons x xs =>
+        simp only [coverB, List.all_eq_true, Bool.and_eq_true, List.any_eq_true] at h2
+        obtain ⟨C, hC, hxc⟩ := (h2 g hg).1 x (by rw [hgi]; simp)
+        have hcl := closed_of_closedB _ _ (h1 C hC)
+        have hxC : x ∈ C := by simpa using hxc
+        by_cases hgC : g.id ∈ C
+        · exact hall C hC hgC
+        · exact (hcl.outside g hg hgC).1 x (by rw [hgi]; simp) hxC
+    · cases hge : g.excl with
+      | nil => exact hne hge
+      | cons x xs =>
+        simp only [coverB, List.all_eq_true, Bool.and_eq_true, List.any_eq_true] at h2
+        obtain ⟨C, hC, hxc⟩ := (h2 g hg).1 x (by rw [hge]; simp)
+        have hcl := closed_of_closedB _ _ (h1 C hC)
+        have hxC : x ∈ C := by simpa using hxc
+        by_cases hgC : g.id ∈ C
+        · exact hall C hC hgC
+        · exact (hcl.outside g hg hgC).2 x (by rw [hge]; simp) hxC
+  obtain ⟨C, hC, hgC⟩ := hin
+  have hcl := closed_of_closedB _ _ (h1 C hC)
+  obtain ⟨resC, e, a⟩ := resolveNF_proj_some Gen.flagTable C hcl Gen.optLevels level (h3 C hC) genFuel genFuel _ res h
+  rw [gen_cluster_canon C hC _ (nodupKeys_restrictOv C _ (nodupKeys_normalize ov)) (keys_restrictOv C _)] at e
+  have hgood := gen_cluster_good C hC (restrictOv C (normalize ov))
+  simp only [clusterGoodB, e, Bool.and_eq_true, Bool.not_eq_true'] at hgood
+  exact ⟨C, hC, hgC, (hcl.inside g hg hgC).1, (hcl.inside g hg hgC).2, resC, hgood.1.1, hgood.1.2, hgood.2, a⟩
+
+/-- **Implied flags are on and exclusive flags are never both on — every command line.**  Whenever
+    the generated table resolves a command line (any length, any order, any level), every flag that
+    is on has everything it implies on, and no flag is on together with one it excludes. -/
+theorem C19_consistent_all (level : Nat) (ov : List (Nat × Bool)) (res : FlagMap)
+    (h : resolve Gen.flagTable Gen.optLevels level ov = some res) :
+    (∀ g ∈ Gen.flagTable, res.get g.id = true → ∀ x ∈ g.implies, res.get x = true) ∧
+    (∀ g ∈ Gen.flagTable, ∀ x ∈ g.excl, ¬ (res.get g.id = true ∧ res.get x = true)) := by
+  unfold resolve at h
+  rw [resolveN_eq_resolveNF] at h
+  constructor
+  · intro g hg hon x hx
+    obtain ⟨C, hC, hgC, hi, _, resC, himp, _, _, a⟩ := gen_view level ov res h g hg (Or.inl (List.ne_nil_of_mem hx))
+    have hgr : g ∈ restrictT Gen.flagTable C := by simp [restrictT, hg, hgC]
+    simp only [impliedOn, List.all_eq_true, Bool.or_eq_true, Bool.not_eq_true'] at himp
+    have := himp g hgr
+    rw [(a x (hi x hx)).1]
+    rcases this with hoff | hall
+    · rw [← (a g.id hgC).1, hon] at hoff; exact absurd hoff (by simp)
+    · exact hall x hx
+  · intro g hg x hx hboth
+    obtain ⟨C, hC, hgC, _, he, resC, _, hnb, _, a⟩ := gen_view level ov res h g hg (Or.inr (List.ne_nil_of_mem hx))
+    have hgr : g ∈ restrictT Gen.flagTable C := by simp [restrictT, hg, hgC]
+    simp only [neverBoth, List.all_eq_true, Bool.not_eq_true', Bool.and_eq_false_iff] at hnb
+    have := hnb g hgr x hx
+    rw [← (a g.id hgC).1, ← (a x (he x hx)).1] at this
+    rcases this with h1' | h2'
+    · rw [hboth.1] at h1'; exact absurd h1' (by simp)
+    · rw [hboth.2] at h2'; exact absurd h2' (by simp)
+
+theorem mem_canonOv (C : List Nat) (l : FlagMap) (k : Nat) (hk : k ∈ C) (hh : FlagMap.has l k = true) :
+    (k, FlagMap.get l k) ∈ canonOv C l := by
+  unfold canonOv
+  simp only [List.mem_filterMap]
+  exact ⟨k, hk, by simp [hh]⟩
+
+/-- **Requesting two exclusive flags is an error — every command line**: when the last settings of a
+    flag and of one it excludes are both "on", the command line does not resolve. -/
+theorem C19_explicit_exclusive_is_error (level : Nat) (ov : List (Nat × Bool)) (g : FlagInfo)
+    (hg : g ∈ Gen.flagTable) (x : Nat) (hx : x ∈ g.excl)
+    (h1 : lastVal ov g.id = some true) (h2 : lastVal ov x = some true) :
+    resolve Gen.flagTable Gen.optLevels level ov = none := by
+  cases hres : resolve Gen.flagTable Gen.optLevels level ov with
+  | none => rfl
+  | some res =>
+    exfalso
+    unfold resolve at hres
+    rw [resolveN_eq_resolveNF] at hres
+    obtain ⟨C, hC, hgC, _, he, resC, _, _, hexp, _⟩ := gen_view level ov res hres g hg (Or.inr (List.ne_nil_of_mem hx))
+    have hgr : g ∈ restrictT Gen.flagTable C := by simp [restrictT, hg, hgC]
+    have hn := nodupKeys_restrictOv C _ (nodupKeys_normalize ov)
+    have on_of : ∀ k, k ∈ C → lastVal ov k = some true →
+        (k, true) ∈ canonOv C (restrictOv C (normalize ov)) := by
+      intro k hk hl
+      have hlv : lastVal (restrictOv C (normalize ov)) k = some true := by
+        rw [lastVal_restrictOv, if_pos hk, lastVal_normalize, hl]
+      have hhas : FlagMap.has (restrictOv C (normalize ov)) k = true :=
+        (has_iff_lastVal _ k).2 (by rw [hlv]; rfl)
+      have hget : FlagMap.get (restrictOv C (normalize ov)) k = true := by
+        rw [get_eq_lastVal _ hn k, hlv]; rfl
+      have := mem_canonOv C _ k hk hhas
+      rwa [hget] at this
+    have hboth : explicitBoth (restrictT Gen.flagTable C) (canonOv C (restrictOv C (normalize ov))) = true := by
+      simp only [explicitBoth, List.any_eq_true, Bool.and_eq_true, List.contains_iff_mem]
+      exact ⟨g, hgr, x, hx, on_of g.id hgC h1, on_of x (he x hx) h2⟩
+    rw [hboth] at hexp
+    exact absurd hexp (by simp)
+
 end Nmfu
